@@ -21,7 +21,7 @@
 From Coq Require Import String.
 From Coq Require Import List ZArith Strings.Byte Bool Permutation Sorting.Sorted.
 From Verif Require Import Base.Wire Json.Utf8 Json.Json Json.Number Json.Lexer Json.C14n
-  Json.JsonProofs Json.LexProofs Json.C14nProofs Json.PanicProofs.
+  Json.JsonProofs Json.LexProofs Json.C14nProofs Json.PanicProofs Json.ShapeProofs.
 Import ListNotations.
 Open Scope Z_scope.
 
@@ -91,6 +91,13 @@ Theorem encode_string_round_trip s o rest : encode_string s = Ok o ->
 Proof. exact (encode_string_scan s o rest). Qed.
 Print Assumptions encode_string_round_trip.
 
+(* encodeString accepts every well-formed UTF-8 string in which Go's DecodeRune never answers
+   RuneError (valid UTF-8 without U+FFFD), so the round trip above covers all of them *)
+Theorem encode_string_accepts_clean_utf8 s : clean_utf8 s = true ->
+  (exists o, encode_string s = Ok o) /\ valid_utf8 s = true.
+Proof. exact (fun H => conj (encode_string_accepts s H) (clean_implies_valid (length s) s H)). Qed.
+Print Assumptions encode_string_accepts_clean_utf8.
+
 (* integers: FormatInt's text is scanned as one number and ParseInt reads the same int64 back *)
 Theorem integer_round_trip z rest : in_int64 z = true -> term rest ->
   scan_number (format_int z ++ rest) = Some (format_int z, rest) /\ parse_int64 (format_int z) = Some z.
@@ -144,6 +151,11 @@ Theorem canonical_members_sorted v : keys_sorted (norm v).
 Proof. exact (keys_sorted_norm v). Qed.
 Print Assumptions canonical_members_sorted.
 
+(* ... strictly increasing when no object of the input repeats a name *)
+Theorem canonical_members_strictly_sorted v : dupfree v = true -> keys_strict (norm v).
+Proof. exact (keys_strict_norm v). Qed.
+Print Assumptions canonical_members_strictly_sorted.
+
 (* Object.Sort yields a sorted permutation and is the identity on sorted input *)
 Theorem sort_sorts m : StronglySorted kle (sort_members m) /\ Permutation (sort_members m) m.
 Proof. exact (conj (sort_sorted m) (sort_perm m)). Qed.
@@ -164,7 +176,7 @@ Print Assumptions escapes_follow_readme.
 
 (* PARTIAL, not proved: byte order of valid UTF-8 names = code point order (true of UTF-8 by design;
    the check compares Go's order with python's code point order on all ordered pairs of a 160-key
-   alphabet);  strictness of the order under duplicate-free names;  the float text shape
+   alphabet);  the float text shape
    -?d.d+E-?d+ as a theorem about format_float_E (it is a premise, floats_ok, here). *)
 
 (* ---------------------------------------------------------------------------------------------- *)
